@@ -26,7 +26,8 @@ MANIFEST = {
             'node holds the complete chain of its head; after a tie-breaking block a broadcast transaction reaches every '
             'pool; afterwards no block or transaction data message is sent any more.'
             ' A quarter of the networks put all nodes on one host (ports differ); stars may have every spoke behind NAT so that the hub is the only path.'
-            ' Branches may contain a block of (nearly) the maximum size.',
+            ' Branches may contain a block of (nearly) the maximum size.'
+            " The world builder keeps a block that the reference holds valid even when the tree's own validation refuses it (trusted history), so that the nodes have to exchange it: blocks of exactly the maximum size are part of the starting chains.",
     'note': 'Trusted: simulated TCP/selector/clock, the liveness bound formula (DESIGN 6.C10), history below block 1 is a '
             'trusted easy-target block (bulk download never validates in chain). Clock skew above 10 s legitimately rejects '
             'fresh blocks and is excluded.',
@@ -544,7 +545,7 @@ def describe():
                        'stub': ['TCP, selector, clocks (per-node skew), randomness', 'scrypt stand-in', 'block 1 is a trusted easy-target block',
                                 'the tie-breaking block is mined by the harness acting as the miner thread']},
         'assumptions': ['liveness bound L from DESIGN 6.C10', 'clock skew <= 10 s'],
-        'expected_probes': ['converged', 'probe:shared_head_reached', 'probe:transaction_in_every_pool', 'probe:relay_quiescent',
+        'expected_probes': ['probe:block_of_exactly_the_maximum_size', 'converged', 'probe:shared_head_reached', 'probe:transaction_in_every_pool', 'probe:relay_quiescent',
                             'probe:transaction_after_pool_history', 'fault:restart', 'fault:partition', 'fault:slow_node',
                             'fault:connection_reset'],
     }
